@@ -346,9 +346,11 @@ messageTypeSwitching:
 	switch message := data.(type) {
 	case *objects.MessageContainer:
 		for _, v := range *message {
+			// items of container are independent messages: the one which can't be processed (e.g. result which
+			// server sent for the second time) is not a reason to drop the others
 			err := m.processResponse(v)
 			if err != nil {
-				return errors.Wrap(err, "processing item in container")
+				m.warnError(errors.Wrap(err, "processing item in container"))
 			}
 		}
 
